@@ -239,9 +239,19 @@ def check_rank_layout(ctx, F, tag):
                     if core(c_)[:2] == ("const", RRB) and core(k_)[0] != "bin":       # k itself, not k + 1 / k - 1
                         return True
                 return False
-            s_ok = any(slot_shift(x[3]) for x in shl)
+            # refuted only by a recognised slot product with the slot shifted (`(k + 1) * 9`); a running shift (`shift += 9`), a
+            # helper, .. are other spellings the clause does not read: undecided
+            def skewed_shift(a):
+                a = core(a)
+                if not (a[0] == "bin" and a[1] == "Mul"):
+                    return False
+                return any(core(c_)[:2] == ("const", RRB) and core(k_)[0] == "bin" and core(k_)[1] in ("Add", "Sub") for k_, c_ in ((a[2], a[3]), (a[3], a[2])))
+            s_ok = True if any(slot_shift(x[3]) for x in shl) else (False if any(skewed_shift(x[3]) for x in shl) else None)
         masks = [fold_consts(nb.term_of_operand(t["args"][0])) for _, t in nb.calls() if callee_name(t) in ("bits::low_set", "bits::low_set_unchecked")]
-        m_ok = None if not masks else any(core(x)[:2] == ("const", (WPB - 1) * RRB) for x in masks)
+        # (the mask that drops the entry after the last word: present with the right width, present with another width -- refuted --,
+        # or not there at all, e.g. because the entry is never written: undecided)
+        m_ok = None if not masks else (True if any(core(x)[:2] == ("const", (WPB - 1) * RRB) for x in masks) else
+                                       (False if all(core(x)[0] == "const" for x in masks) else None))
         pushes_ = [(bi, t) for bi, t in nb.calls() if callee_name(t).startswith("std::vec::Vec::<") and callee_name(t).endswith("::push") and bi in nb.loop_blocks()]
         adds = [(bi, st) for bi, _, st in nb.stmts() if st["s"] == "assign" and st["rv"]["r"] == "bin" and st["rv"]["op"].startswith("Add") and
                 {core(nb.term_of_operand(st["rv"]["a"]))[0], core(nb.term_of_operand(st["rv"]["b"]))[0]} == {"var"} and
@@ -289,13 +299,24 @@ def check_rank_layout(ctx, F, tag):
         t = fold_consts(qb.term_of_local(0))
         subs = list(subterms(t))
         so = lambda k: lambda x: x[0] == "field" and x[2] == k and core(x[1])[0] == "call" and core(x[1])[1] == "bits::split_offset" and core(core(x[1])[2][0])[:2] == idx
-        is_word, is_off = so("0"), so("1")
+        _w, _o = so("0"), so("1")
+        # (split_offset(index), or the same two quantities spelled out: index / 64 | index >> 6, index % 64 | index & 63)
+        is_word = lambda x: _w(x) or (x[0] == "bin" and core(x[2])[:2] == idx and ((x[1] == "Div" and core(x[3])[:2] == ("const", 64)) or (x[1] == "Shr" and core(x[3])[:2] == ("const", 6))))
+        is_off = lambda x: _o(x) or (x[0] == "bin" and core(x[2])[:2] == idx and ((x[1] == "Rem" and core(x[3])[:2] == ("const", 64)) or (x[1] == "BitAnd" and core(x[3])[:2] == ("const", 63))))
         # (a) sample index
         samp = [x for x in subs if x[0] == "call" and x[1].split("::")[-1].split("<")[0] in ("index", "get_unchecked", "get") and any(self_path(y) == ["samples"] for y in subterms(x[2][0]))]
         a_ok = None
         if samp:
-            a_ok = all(core(x[2][1])[0] == "bin" and core(x[2][1])[1] in ("Div", "Shr") and core(core(x[2][1])[2])[:2] == idx and
-                       core(core(x[2][1])[3])[:2] == ("const", BS if core(x[2][1])[1] == "Div" else BS.bit_length() - 1) for x in samp)
+            def sample_index(x):
+                """True: index / BLOCK_SIZE (or >> log2); False: the query index divided by another constant; None: another spelling
+                (word / WORDS_PER_BLOCK, a helper, ..)."""
+                i_ = core(x[2][1])
+                if i_[0] == "bin" and i_[1] in ("Div", "Shr") and core(i_[2])[:2] == idx:
+                    # the query index itself divided: by the block size, or by something else (refuted)
+                    return core(i_[3])[0] == "const" and core(i_[3])[1] == (BS if i_[1] == "Div" else BS.bit_length() - 1)
+                return None
+            vs = [sample_index(x) for x in samp]
+            a_ok = False if any(v is False for v in vs) else (None if any(v is None for v in vs) else True)
         # (b) slot
         # the shift count is slot * RELATIVE_RANK_BITS and nothing else: `slot * 9 + 1` reads across two slots
         shr = []
@@ -311,7 +332,7 @@ def check_rank_layout(ctx, F, tag):
                         skewed = True
         b_ok = False if skewed else None
         if shr:
-            b_ok = False
+            b_ok = None
             for x in shr:
                 if skewed:
                     break
@@ -324,11 +345,13 @@ def check_rank_layout(ctx, F, tag):
                         wordish = len(leaves) == 1 and lin[leaves[0]] == 1 and (is_word(leaves[0]) or (leaves[0][0] == "bin" and leaves[0][1] == "BitAnd" and is_word(core(leaves[0][2])) and core(leaves[0][3])[:2] == ("const", WM)))
                         if wordish and lin.get((), 0) % WPB == WPB - 1:
                             b_ok = True
+                        elif wordish and b_ok is None:
+                            b_ok = False          # slot (word + c) & 7 with c != 7 (mod 8): the neighbour's entry
         # (c) within the word
         cnt = [x for x in subs if x[0] == "call" and x[1].split("::")[-1] == "count_ones" and x[1].startswith("core::num")]
         c_ok = None
         if cnt:
-            c_ok = False
+            c_ok = None
             for x in cnt:
                 a0 = core(x[2][0])
                 if a0[0] == "bin" and a0[1] == "BitAnd":
